@@ -36,10 +36,26 @@ type panicVal struct{ n int }
 
 // ---------------------------------------------------------------- real world, sequential
 
+// probe is the bucket the harness registers with the cleaner: the real cache, plus an observation point in
+// Released() (polled by Cleaner.ReleaseBuckets) from which the harness can attempt a concurrent AddBucket.
+type probe struct {
+	*cache.Cache[int]
+	w *world
+}
+
+func (p *probe) Released() bool {
+	if f := p.w.onPoll; f != nil {
+		f()
+	}
+	return p.Cache.Released()
+}
+
 type world struct {
 	limit   uint64
 	cl      *cache.Cleaner
 	caches  []*cache.Cache[int]
+	probes  []*probe
+	onPoll  func()
 	rel     []bool
 	metrics func() *cache.Metrics
 	// property bookkeeping (independent of the model)
@@ -61,8 +77,40 @@ func (w *world) addCache() {
 	if w.metrics != nil {
 		m = w.metrics()
 	}
-	w.caches = append(w.caches, cache.NewCache[int](w.cl, m))
+	// NewCache(cleaner, m) = NewCache(nil, m) + cleaner.AddBucket(bucket); the bucket is the probe around the cache
+	c := cache.NewCache[int](nil, m)
+	p := &probe{Cache: c, w: w}
+	w.cl.AddBucket(p)
+	w.caches = append(w.caches, c)
+	w.probes = append(w.probes, p)
 	w.rel = append(w.rel, false)
+}
+
+// releaseBucketsWithAdd runs Cleaner.ReleaseBuckets while another goroutine tries to create a cache (AddBucket)
+// from inside the first Released() poll.  ReleaseBuckets works under the cleaner's mutex, so the new bucket can
+// only be appended after it: the observable result equals "ReleaseBuckets; NewCache".
+func (w *world) releaseBucketsWithAdd() int {
+	done := make(chan struct{})
+	started := false
+	w.onPoll = func() {
+		if started {
+			return
+		}
+		started = true
+		go func() { w.addCache(); close(done) }()
+		select {
+		case <-done:
+		case <-time.After(25 * time.Millisecond):
+		}
+	}
+	n := w.cl.ReleaseBuckets()
+	w.onPoll = nil
+	if !started {
+		w.addCache()
+	} else {
+		<-done
+	}
+	return n
 }
 
 func (w *world) violate(site, class, what string) {
@@ -203,6 +251,8 @@ func (w *world) doOp(op string) (string, error) {
 		return fmt.Sprintf("n%d", w.cl.CleanEmptyGenerations()), nil
 	case 'b':
 		return fmt.Sprintf("n%d", w.cl.ReleaseBuckets()), nil
+	case 'B':
+		return fmt.Sprintf("n%d", w.releaseBucketsWithAdd()), nil
 	}
 	return "", fmt.Errorf("bad op %q", op)
 }
@@ -231,8 +281,9 @@ func (w *world) checkQuiescent() {
 			continue
 		}
 		found := false
+		_ = c
 		for _, b := range bs {
-			if b == any(c) {
+			if b == any(w.probes[i]) {
 				found = true
 			}
 		}
@@ -258,8 +309,8 @@ func (w *world) state() string {
 	var bs []int
 	for _, b := range w.cl.VerifBuckets() {
 		idx := -1
-		for i, c := range w.caches {
-			if b == any(c) {
+		for i, p := range w.probes {
+			if b == any(p) {
 				idx = i
 			}
 		}
@@ -289,19 +340,25 @@ func (w *world) state() string {
 // runSeq runs an op list; returns the driver request, the canonical impl answer and a possible violation.
 func runSeq(limit uint64, ops []string) (req, impl string, viol *vh.Violation, err error) {
 	w := newWorld(limit)
-	var outs []string
+	var outs, mops []string
 	for _, op := range ops {
 		o, e := w.doOp(op)
 		if e != nil {
 			return "", "", nil, e
 		}
 		outs = append(outs, fmt.Sprintf("%s@%d", o, int64(w.cl.VerifGetSize())))
+		if op == "B" { // for the model: ReleaseBuckets, then the AddBucket that had to wait for it
+			mops = append(mops, "b", "n")
+			outs = append(outs, fmt.Sprintf("-@%d", int64(w.cl.VerifGetSize())))
+		} else {
+			mops = append(mops, op)
+		}
 		w.checkQuiescent()
 	}
-	req = fmt.Sprintf("seq %d %d %s", limit, w.entrySize(), vh.JoinStrs(ops, ";"))
+	req = fmt.Sprintf("seq %d %d %s", limit, w.entrySize(), vh.JoinStrs(mops, ";"))
 	impl = fmt.Sprintf("ok %s | %s", vh.JoinStrs(outs, ";"), w.state())
 	if w.viol != nil {
-		w.viol.Replay = []string{req}
+		w.viol.Replay = []string{fmt.Sprintf("seq %d %d %s", limit, w.entrySize(), vh.JoinStrs(ops, ";"))}
 	}
 	return req, impl, w.viol, nil
 }
@@ -313,7 +370,7 @@ func validSeq(ops []string) bool {
 	rel := map[int]bool{}
 	for _, op := range ops {
 		switch op[0] {
-		case 'n':
+		case 'n', 'B':
 			n++
 		case 'g', 'e', 'p', 'x':
 			c, _ := strconv.Atoi(strings.Split(op[1:], ".")[0])
@@ -363,7 +420,12 @@ func genSeq(r *vh.RNG, n int) (uint64, []string) {
 		case x < 83:
 			ops = append(ops, "z")
 		case x < 89:
-			ops = append(ops, "b")
+			if r.Intn(40) == 0 && len(rel) < 7 {
+				ops = append(ops, "B")
+				rel = append(rel, false)
+			} else {
+				ops = append(ops, "b")
+			}
 		case x < 95 && len(rel) > 0:
 			c := r.Intn(len(rel))
 			ops = append(ops, fmt.Sprintf("x%d", c))
@@ -553,6 +615,10 @@ func main() {
 				ops = append(ops, "b", "n", "r")
 				addSeq(1000, ops, "rb-two-rounds")
 			}
+		}
+		// 2b. ReleaseBuckets with a cache being created concurrently (AddBucket attempted from inside the poll)
+		for _, sc := range []string{"n;B;g1.1.5.10", "n;n;x0;B;g2.1.5.10;b", "n;n;n;x0;x2;B;x1;B;r;g3.1.1.600;g4.1.2.600;c", "B;g0.1.1.1", "n;x0;B;B;g1.1.1.1;g2.1.1.1"} {
+			addSeq(1000, strings.Split(sc, ";"), "rb-concurrent-add")
 		}
 		// 3. all op sequences over a small alphabet (after creating two caches)
 		alphabet := []string{"g0.1.1.300", "g0.2.2.300", "g1.1.3.300", "e0.1", "p1.1", "x0", "x1", "r", "c", "z", "b", "n"}
